@@ -43,7 +43,7 @@ def drive(rec):
     n = rec["n"]
     t = {"n": n, "gram": rec["gram"], "asym": rec["asym"], "mols": rec["mols"], "bonds": rec["bonds"], "ops": [],
          "switched": bool(rec.get("via_switch")), "pre": rec.get("pre", {}), "choice": rec["choice"],
-         "thr": xtal.bond_table(rec), "mass": xtal.mass_table(rec), "u2m": int(rec.get("u2m", 0)), "exc_conn": "", "exc_mols": "",
+         "thr": xtal.bond_table(rec), "mass": xtal.mass_table(rec), "u2m": int(rec.get("u2m", 0)), "tol100": int(round(100 * rec.get("bond_tolerance", 0.4))), "exc_conn": "", "exc_mols": "",
          "exc_unique": "", "off": False, "ucpts": [], "edges": [], "ucmols": [], "unique": [], "bfs": [],
          "meta": {"recipe": rec, "source": rec.get("src", "random"),
                   "impl_call": "Crystal(...%d %r).unit_cell_connectivity/unit_cell_molecules/symmetry_unique_molecules" % (
@@ -59,12 +59,19 @@ def drive(rec):
         return t
     t["ops"] = [int(s.integer_code) for s in cr.space_group.symmetry_operations]
     off = False
+    if rec.get("bond_tolerance", 0.4) != 0.4 and len(rec["asym"]) % 2 == 0:
+        # a caller who asks for the molecules straight away (the connectivity is then computed on their behalf)
+        try:
+            cr.symmetry_unique_molecules(bond_tolerance=rec["bond_tolerance"])
+        except Exception:
+            pass
     try:
         uc = cr.unit_cell_atoms()
         rows, _, o = xtal.project_rows(uc, n, None, rec["u"])
         off |= o
         t["ucpts"] = [{"p": r["p"], "z": r["z"]} for r in rows]
-        graph, props = cr.unit_cell_connectivity()
+        kw = {} if rec.get("bond_tolerance", 0.4) == 0.4 else {"bond_tolerance": rec["bond_tolerance"]}
+        graph, props = cr.unit_cell_connectivity(**({"tolerance": rec["bond_tolerance"]} if kw else {}))
         for (i, j), cell in props.items():
             c = [int(round(float(x))) for x in cell]
             t["edges"].append([int(i) + 1, int(j) + 1, c])
@@ -79,7 +86,7 @@ def drive(rec):
         except ImportError:
             _verif = None
         try:
-            mols = cr.unit_cell_molecules()
+            mols = cr.unit_cell_molecules(**kw)
         finally:
             if _verif is not None:
                 _verif.install(None)
@@ -92,7 +99,7 @@ def drive(rec):
         t["off"] = bool(off)
         return t
     try:
-        uniq = cr.symmetry_unique_molecules()
+        uniq = cr.symmetry_unique_molecules(**kw)
         for m in uniq:
             atoms, o = project_mol(cr, m, n)
             off |= o
@@ -120,6 +127,21 @@ def gen(args):
         if rec is not None:
             rec["src"] = "switched in place H->R after use"
         return rec if rec is not None else {"__none__": True, "meta": {}}
+    if nmols == "stretched":
+        # the caller asks for a generous bonding tolerance (0.9 A) and the molecules have bonds only that tolerance accepts
+        rec = xtal.gen_molecular(rng, row, nmols=1, sizes=sizes, bond_tolerance=0.9, vol_per_atom=rng.choice([48.0, 60.0]), max_tries=150)
+        if rec is not None:
+            rec["src"] = "bond_tolerance=0.9"
+        return rec if rec is not None else {"__none__": True, "meta": {}}
+    if nmols == "oblique":
+        # strongly oblique cells, molecules across faces: a bond may cross a face steeply
+        rh = row["number"] in (146, 148, 155, 160, 161, 166, 167) and row["choice"] == "R"
+        gf = (lambda r: xtal.oblique_gram(r, rhombohedral=rh)) if (rh or row["number"] <= 2) else (lambda r: xtal.sym_gram(row["ops"], r, oblique=True, maxentry=1500))
+        rec = xtal.gen_molecular(rng, row, nmols=rng.choice([1, 2]), sizes=sizes, gram_fn=gf, boundary_prob=0.9, with_h=False,
+                                 vol_per_atom=rng.choice([20.0, 26.0, 32.0]), min_vol=60.0, max_tries=200, face_bond=True)
+        if rec is not None:
+            rec["src"] = "oblique cell"
+        return rec if rec is not None else {"__none__": True, "meta": {}}
     if nmols == "heavy":
         # molecules with terminal Cl / Br / I / S atoms at ordinary single-bond lengths (C-I 2.06-2.36 A ...)
         rec = xtal.gen_molecular(rng, row, nmols=1, sizes=sizes, halogens=0.6, vol_per_atom=rng.choice([44.0, 56.0]), max_tries=120)
@@ -143,6 +165,12 @@ def make_recipes(ctx, rows, per_setting):
     small = [r for r in rows if len(r["ops"]) <= 16]
     for j in range(ctx.pick(48, 1500)):
         jobs.append((small[(j * 37 + ctx.seed) % len(small)], ctx.seed * 19 + 6000 + j, "heavy", (2, 3) if j % 3 else (2, 3, 4)))
+    for j in range(ctx.pick(40, 1200)):
+        jobs.append((small[(j * 41 + ctx.seed) % len(small)], ctx.seed * 29 + 8000 + j, "stretched", (2, 3) if j % 2 else (2, 3, 4)))
+    obl = [r for r in rows if r["number"] <= 15 or (r["number"] in (146, 148, 155, 160, 161, 166, 167) and r["choice"] == "R")]
+    obl = obl + [r for r in obl if r["number"] <= 2] * 30 + [r for r in obl if r["number"] >= 146] * 4     # half of them triclinic
+    for j in range(ctx.pick(120, 3000)):
+        jobs.append((obl[(j * 43 + ctx.seed) % len(obl)], ctx.seed * 31 + 9000 + j, "oblique", (2, 3, 4) if j % 2 else (3, 4, 5)))
     hex_rows = [r for r in rows if r["number"] in (146, 148, 155, 160, 161, 166, 167) and r["choice"] == "H"]
     for j in range(max(7, 2 * per_setting * 7)):
         jobs.append((hex_rows[j % 7], ctx.seed * 17 + 4000 + j, "switched", (2, 3) if j % 2 else (2, 3, 4)))
